@@ -555,3 +555,125 @@ func ruleGroupLeaveAndDeleteCoverEveryone(c *eng.Ctx) {
 		c.Check(ok, "a deleted stream is taken from every subscriber", p.Pos(fn.Pos()), "every iteration of the subscriber loop un-subscribes the member", "StreamDeleted can skip a subscriber (path "+w.String()+"): a member that held no partition of the stream keeps it in its subscription set while the heap is dropped; when the stream is created again that member is in no heap, and a restore from a snapshot — which rebuilds heaps from the subscription sets — diverges from the servers that applied the log")
 	}
 }
+
+// ruleRetentionDeletesFromTheOldestEnd (R09.5 extension): whatever fails or crashes part-way, the files that are left are a
+// contiguous suffix — deleteSegments removes its segments in the order given and stops at the first one that cannot be
+// removed, and the count / size passes hand it the doomed segments oldest first.
+func ruleRetentionDeletesFromTheOldestEnd(c *eng.Ctx) {
+	p := c.P
+	if fn := c.Fn(cl + "(*deleteCleaner).deleteSegments"); fn != nil {
+		dels := eng.CallsIn(fn, cl+"segment.Delete")
+		ok := len(dels) == 1
+		var w *eng.Witness
+		if ok {
+			d := dels[0].(*ssa.Call)
+			failed := eng.CmpEdges(fn, eng.Same(d), eng.NilConst, eng.NE)
+			q := &eng.PathQuery{Fn: fn, FromEdges: failed, Target: func(x ssa.Instruction) bool { return x == ssa.Instruction(d) }}
+			w = q.Find()
+			ok = w == nil && len(failed) > 0
+		}
+		c.Check(ok, "deletion stops at the first segment that cannot be removed", p.Pos(fn.Pos()), "after a failed Delete no further segment is deleted in this pass", "deleteSegments carries on with the next segment after one could not be deleted (path "+w.String()+"): an older segment stays while newer ones go — a hole in the log that open() loads as it is after a restart")
+	}
+	for _, k := range []string{cl + "(*deleteCleaner).applyMessagesLimit", cl + "(*deleteCleaner).applyBytesLimit"} {
+		fn := c.Fn(k)
+		if fn == nil {
+			continue
+		}
+		ok := false
+		for _, dc := range eng.CallsIn(fn, cl+"deleteCleaner.deleteSegments") {
+			a := dc.Common().Args
+			if sl, isSl := a[len(a)-1].(*ssa.Slice); isSl && eng.Param("segments")(sl.X) && sl.Low == nil {
+				ok = true // a prefix of the input list: oldest first by construction
+			}
+		}
+		if !ok {
+			// a list built by appending: the index of the appended elements must ascend
+			asc := true
+			found := false
+			eng.Instrs(fn, func(in ssa.Instruction) {
+				call, isCall := in.(*ssa.Call)
+				if !isCall {
+					return
+				}
+				if b, isB := call.Call.Value.(*ssa.Builtin); !isB || b.Name() != "append" || !flowsToDelete(call) {
+					return
+				}
+				for _, e := range variadicElems(call.Call.Args[1]) {
+					if ia := indexOfLoad(e); ia != nil && eng.Param("segments")(ia.X) {
+						found = true
+						if ph, isPhi := ia.Index.(*ssa.Phi); isPhi {
+							for _, pe := range ph.Edges {
+								if eng.Bin(token.SUB, eng.Same(ph), eng.IntConst(1))(pe) {
+									asc = false // i-- : newest first
+								}
+							}
+						}
+					}
+				}
+			})
+			ok = found && asc
+		}
+		c.Check(ok, fn.Name()+" hands the doomed segments over oldest first", p.Pos(fn.Pos()), "segments[:i+1], or a list built in ascending order", fn.Name()+" builds the delete list from the stop index DOWN to 0: the newest doomed segment is removed first, and a crash or failure before the older ones are gone leaves them in front of a gap")
+	}
+}
+
+// ruleCleanerRunsEveryTick (R09.4 extension): a tick of the cleaner loop that rolled the active segment still runs Clean.
+func ruleCleanerRunsEveryTick(c *eng.Ctx) {
+	p := c.P
+	fn := c.Fn(cl + "(*commitLog).cleanerLoop")
+	if fn == nil {
+		return
+	}
+	splits := eng.CallsIn(fn, cl+"commitLog.checkAndPerformSplit")
+	cleans := eng.CallsIn(fn, cl+"commitLog.Clean")
+	if len(splits) != 1 || len(cleans) != 1 {
+		c.Unresolved("checkAndPerformSplit / Clean in cleanerLoop")
+		return
+	}
+	// from the roll check, the next wait (the select / ticker receive at the loop head) is not reached without Clean
+	var waits []ssa.Instruction
+	eng.Instrs(fn, func(in ssa.Instruction) {
+		switch in.(type) {
+		case *ssa.Select:
+			waits = append(waits, in)
+		}
+	})
+	q := &eng.PathQuery{Fn: fn, FromAfter: []ssa.Instruction{splits[0].(ssa.Instruction)}, Target: func(x ssa.Instruction) bool {
+		for _, w := range waits {
+			if x == w {
+				return true
+			}
+		}
+		return false
+	}, CutInstr: func(x ssa.Instruction) bool { return x == cleans[0].(ssa.Instruction) },
+		CutEdges: eng.CmpEdges(fn, eng.Call(1, cl+"commitLog.checkAndPerformSplit"), eng.NilConst, eng.NE)}
+	w := q.Find()
+	c.Check(w == nil && len(waits) > 0, "every tick of the cleaner loop cleans", p.Pos(fn.Pos()), "after the roll check the loop reaches Clean before it waits again", "a tick that rolled the active segment skips Clean (path "+w.String()+"): with segment.max.age below cleaner.interval and a slow stream every tick rolls, and the retention limits are never applied")
+}
+
+// ruleReverseReaderSurvivesReplacement (R08.6 extension, shared with C10 and C11): a reverse reader whose segment was replaced
+// by the cleaner re-positions itself in the current segments instead of failing.
+func ruleReverseReaderSurvivesReplacement(c *eng.Ctx) {
+	p := c.P
+	fn := c.Fn(cl + "(*ReverseReader).ReadMessage")
+	if fn == nil {
+		return
+	}
+	scanErr := eng.Call(2, cl+"reverseSegmentScanner.Scan")
+	replaced := eng.CmpEdges(fn, eng.AnyV, eng.Global(cl+"ErrSegmentReplaced"), eng.EQ)
+	ok := len(replaced) > 0
+	var w *eng.Witness
+	if ok {
+		q := &eng.PathQuery{Fn: fn, FromEdges: replaced, Target: func(x ssa.Instruction) bool {
+			r, isR := x.(*ssa.Return)
+			if !isR {
+				return false
+			}
+			rv := eng.RetVals(r)
+			return len(rv) == 5 && scanErr(rv[4])
+		}, CutInstr: eng.IsCallTo(cl + "reverseSegmentScanner.Scan")}
+		w = q.Find()
+		ok = w == nil
+	}
+	c.Check(ok, "a reverse reader re-positions itself when its segment was replaced", p.Pos(fn.Pos()), "ErrSegmentReplaced from the scanner leads to a re-initialisation, not to the caller", "ReverseReader.ReadMessage has no handling for a segment replaced by compaction: after a Clean() during a reverse subscription the next read fails (`segment has been closed`) — a FetchCursor that scans the compacted cursors stream fails with an Internal error")
+}
